@@ -28,6 +28,12 @@ def check(ctx):
     framing_premise(ctx, 'S-FRAME', 'a SUBACK/UNSUBACK that is mis-framed leaves its request pending or answers another one')
     # "under a fresh packet identifier": fresh is what the allocator guarantees (C17's rules)
     from .common import run_premise
+    # "calls beyond the window are rejected ...": the window counts what is registered, so a call that is rejected (for whatever reason:
+    # an unencodable topic) must leave nothing registered - C20's atomicity rule for subscribe()/unsubscribe()
+    run_premise(ctx, "C20", "S-WINDOW", "rejected-calls", "a rejected subscribe()/unsubscribe() registers nothing",
+                "a rejected call leaves its half-built request in the window: it holds a slot for ever (later well-formed calls fail with "
+                "MQTTWindowError) and the loss path trips over its missing alarm",
+                only=lambda f: f.rule == "G-ATOMIC" and ("subscribe" in f.construct))
     run_premise(ctx, "C17", "S-IDS", "identifiers", "the identifier given to a SUBSCRIBE / UNSUBSCRIBE is not carried by another unfinished request",
                 "a new request takes the identifier (and the window slot) of one that is still waiting: the older Deferred is orphaned "
                 "with its timer running, the acknowledgement settles the wrong request")
